@@ -51,7 +51,7 @@ def fault_for(kind, victim, tick, token=("fault",)):
     raise ValueError(kind)
 
 
-def sweep(case, base, rng, one, victims, kinds, per_group, extra_plan=(), pairs=0):
+def sweep(case, base, rng, one, victims, kinds, per_group, extra_plan=(), pairs=0, mixed=None):
     """Run `case` with one fault at every (sampled) tick, per victim and kind.
 
     `one(case)` runs a case through the oracle and returns its Outcome; the sweep stops at the
@@ -90,3 +90,40 @@ def sweep(case, base, rng, one, victims, kinds, per_group, extra_plan=(), pairs=
         out = one(variant)
         if out.violations:
             return
+    # seeded fault sequences of mixed kinds: 2-3 different victims, each with its own kind (and
+    # cage), struck at independent or nearly coinciding kernel events of one run
+    mixed = pairs // 2 if mixed is None else mixed
+    if len(victims) < 2 or len(kinds) < 2:
+        return
+    done = 0
+    while done < mixed:
+        chosen = rng.sample(victims, min(len(victims), rng.choice([2, 2, 3])))
+        how = [rng.choice(kinds) for _ in chosen]
+        caged = case
+        for victim, kind in zip(chosen, how):
+            if CAGE_OF[kind]:
+                caged = with_cage(caged, victim, CAGE_OF[kind])
+        if caged is not case:
+            caged["plan"] = list(extra_plan)
+            ref = one(caged)
+            if ref.violations:
+                return
+            n_ticks = ref.ticks
+        else:
+            n_ticks = base.ticks
+        for _ in range(6):
+            done += 1
+            anchor = rng.randint(1, max(1, n_ticks))
+            plan = list(extra_plan)
+            for victim, kind in zip(chosen, how):
+                if rng.random() < 0.5:
+                    tick = min(n_ticks, anchor + rng.choice([0, 0, 1, 2, 3, 5, 9]))
+                else:
+                    tick = rng.randint(1, max(1, n_ticks))
+                plan.append(fault_for(kind, victim, tick, token=("mixed", victim)))
+            plan.sort(key=lambda f: f["tick"])
+            variant = dict(caged)
+            variant["plan"] = plan
+            out = one(variant)
+            if out.violations:
+                return
